@@ -7,11 +7,14 @@
    instruction, no conditional) the VM never reaches
    one of its panic sites and every capture slot it reports is unset or a character boundary
    inside the text.
-   NOT proved: (4) for programs with Delegate instructions or conditionals, and SearchOK's
+   (5) for EVERY compiled program, whatever it delegates, the same two facts
+   (C05_vm_never_panics_any_program, C05_vm_offsets_valid_any_program), via the stage-2
+   compiler-correctness theorem against the atomized tree.
+   NOT proved: patterns with a conditional under an atomic cut, and SearchOK's
    "start at or after the search offset" (false for \K inside a look-behind: F-keepout-lb) —
    those rest on the correspondence check under catch_unwind and are reported as partial. *)
 From FR Require Import Base State Utf8 Utf8Facts Chars Ast Analyze Sem SemSound Api ApiProofs
-                       Vm Compile Machine CompileCorrect RunCorrect EndToEnd.
+                       Vm Compile Machine Atomize CompileCorrect RunCorrect EndToEnd.
 From Coq Require Import NArith Lia.
 
 Theorem C05_reference_offsets_valid : forall cs cx, valid_chars cs -> c_text cx = concat cs ->
@@ -89,6 +92,53 @@ Proof.
   - apply val_ok_upd; auto. rewrite Forall_forall in Hc'. apply (Hc' (V s1)). eapply nth_error_In; eauto.
 Qed.
 
+(* EVERY compiled program (any Delegate instructions): no panic site is ever reached, and every
+   reported capture slot is unset or a character boundary inside the text.  The only hypothesis on
+   the pattern is [oke true]: parser invariants, backreferences to earlier groups, lo <= hi, no
+   conditional under an atomic cut. *)
+Theorem C05_vm_never_panics_any_program :
+  forall cs : list (list nat), valid_chars cs ->
+  forall cx : ctx, c_text cx = concat cs -> (N.of_nat (length (concat cs)) < usize_max)%N ->
+  bnd cs (c_pos cx) ->
+  forall (bs : N -> bool) (e : expr) (p : prog),
+  compile bs (wrap e) = inr p -> oke true 0 (wrap e) ->
+  forall (max_st : nat) (lim : option N) (fuelv : nat),
+  fst (vm_run cx p max_st lim fuelv) <> RPanic.
+Proof.
+  intros cs W cx Ht Hl Hp bs e p Hc Ho max_st lim fuelv Hr.
+  pose proof (vm_agrees_atomized cs W cx Ht Hl Hp bs e p Hc Ho max_st lim fuelv) as H.
+  rewrite Hr in H. exact H.
+Qed.
+
+Theorem C05_vm_offsets_valid_any_program :
+  forall cs : list (list nat), valid_chars cs ->
+  forall cx : ctx, c_text cx = concat cs -> (N.of_nat (length (concat cs)) < usize_max)%N ->
+  bnd cs (c_pos cx) ->
+  forall (bs : N -> bool) (e : expr) (p : prog),
+  compile bs (wrap e) = inr p -> oke true 0 (wrap e) ->
+  forall (max_st : nat) (lim : option N) (fuelv : nat) sv,
+  fst (vm_run cx p max_st lim fuelv) = RMatch sv ->
+  Forall (fun v => match v with MAXV => True | V q => bnd cs q end) (firstn (2 * S (ngroups e)) sv).
+Proof.
+  intros cs W cx Ht Hl Hp bs e p Hc Ho max_st lim fuelv sv Hr.
+  pose proof (vm_agrees_atomized cs W cx Ht Hl Hp bs e p Hc Ho max_st lim fuelv) as H.
+  rewrite Hr in H. unfold dsearch in H.
+  destruct (sem cx (atomize bs (wrap e) 0 false) (S (length (c_text cx))) 0 (c_pos cx, init_caps (S (ngroups e)))) as [|s rest] eqn:Es; [discriminate|].
+  assert (H1 : end_fix (snd s) = firstn (2 * S (ngroups e)) sv) by congruence. clear H.
+  assert (Hs : st_ok cs s).
+  { destruct Ho as (Hw & _).
+    assert (Hin : In s (sem cx (atomize bs (wrap e) 0 false) (S (length (c_text cx))) 0 (c_pos cx, init_caps (S (ngroups e))))) by (rewrite Es; left; auto).
+    eapply (sem_sound cs W cx Ht Hl (atomize bs (wrap e) 0 false)) in Hin.
+    - destruct Hin as (n & [Hok _] & _). exact Hok.
+    - apply (atomize_keeps bs (wrap e) 0 false). exact Hw.
+    - split; [exact Hp|]. cbn [snd]. unfold init_caps. apply Forall_forall. intros x Hx. apply repeat_spec in Hx. subst. exact I. }
+  destruct Hs as [_ Hc']. rewrite <- H1. change (Forall (val_ok cs) (end_fix (snd s))). unfold end_fix.
+  pose proof (val_ok_getcap cs (snd s) 0 Hc') as H0.
+  destruct (getcap (snd s) 0) as [s0|]; destruct (nth_error (snd s) 1) as [[s1|]|] eqn:E1; try exact Hc'.
+  - destruct (s1 <? s0); [|exact Hc']. apply val_ok_upd; auto. rewrite Forall_forall in Hc'. apply (Hc' (V s1)). eapply nth_error_In; eauto.
+  - apply val_ok_upd; auto. rewrite Forall_forall in Hc'. apply (Hc' (V s1)). eapply nth_error_In; eauto.
+Qed.
+
 Check C05_reference_offsets_valid.
 Check C05_split_no_panic.
 
@@ -98,3 +148,5 @@ Print Assumptions C05_split_no_panic.
 Print Assumptions C05_replace_no_panic.
 Print Assumptions C05_vm_never_panics.
 Print Assumptions C05_vm_offsets_valid.
+Print Assumptions C05_vm_never_panics_any_program.
+Print Assumptions C05_vm_offsets_valid_any_program.
